@@ -43,6 +43,7 @@ DOCS = [
     "<!--{b}a{b}--{b}-->{b}<!-{b}->", "<!DOCTYPE{b}html{b}PUBLIC{b}\"a{b}b\"{b}'c{b}d'{b}>x",
     "<!DOCTYPE a{b}SYSTEM{b}'s'>", "<!DOCTYPE a{b}bogus{b}>", "<title>a{b}&amp;{b}b</title{b}>{b}",
     "<script>a{b}<!--{b}<script>{b}</script>{b}-->{b}</script>{b}", "&{b}x&amp{b}&#{b}&#x{b}&#65{b}&notit{b};&am{b}p;",
+    "R&foo{b}end&zz{b};&Dx{b}=&q1{b}", "<a b='&foo{b}c' d=&zz{b}>", "<title>&foo{b}</title>&#x{b}g&#1{b}2",
     "<![CDATA[{b}]]{b}]]>{b}", "<a b=&amp{b} c='&lt{b}'>", "<a/{b}>", "</{b}a>", "<{b}", "<a b{b}", "<a b='{b}",
     "<?{b}pi{b}>", "<svg{b}><![CDATA[a{b}b]]>{b}</svg>", "<plaintext>{b}a{b}", "{b}", "x{b}", "{b}x",
 ]
